@@ -55,6 +55,17 @@ def switch(target_handle: Handle[World], clear_current=False, clear_next=False,
     if from_world is None:
         from_world = desper.default_loop.current_world
 
+    # If the target handle has to be cleared (either explicitly, or because
+    # the current handle is being cleared and re-entered), do it right
+    # away: events must reach the world instance that will actually run,
+    # not one that the loop is about to discard.
+    self_switch = target_handle.cached and target_handle() is from_world
+    if clear_next or (clear_current and self_switch):
+        target_handle.clear()
+        clear_next = False
+        if self_switch:
+            clear_current = False
+
     to_world = target_handle()
 
     if from_world is not None:
